@@ -211,7 +211,53 @@ def derived_family():
     return out
 
 
-GUARDS = ["nestable_b", "nestable_d_b"]      # in the order extract/drv_front.ml (nestsem2) prints them
+def constraint_family():
+    """Nests with inner Exclude / Pin and outer Exclude / ExactlyK / AtMostKInARow constraints, the latter on crossed and
+    on free outer factors (guards nestable_c_b, nestable_f_b of C25_nest_groups_constraints / _free)."""
+    out = []
+    cases = [("inner-exclude", 2, 3, None, {"kind": "Exclude", "level": [1, "b0"]}, False),
+             ("inner-pin-last", 2, 2, None, {"kind": "Pin", "index": -1, "level": [1, "b1"]}, False),
+             ("inner-pin-second", 2, 3, None, {"kind": "Pin", "index": 1, "level": [1, "b0"]}, False),
+             ("outer-exclude", 3, 2, {"kind": "Exclude", "level": [0, "a0"]}, None, False),
+             ("outer-exactlyk", 2, 2, {"kind": "ExactlyK", "k": 1, "level": [0, "a0"]}, None, False),
+             ("outer-atmost", 2, 2, {"kind": "AtMostKInARow", "k": 2, "level": [0, "a0"]}, None, False),
+             ("outer-atmost-3", 2, 2, {"kind": "AtMostKInARow", "k": 3, "level": [0, "a1"]}, {"kind": "Pin", "index": 0, "level": [1, "b0"]}, False),
+             ("outer-free-atmost", 2, 2, {"kind": "AtMostKInARow", "k": 1, "level": [3, "d0"]}, None, True),
+             ("outer-free-exactlyk", 2, 2, {"kind": "ExactlyK", "k": 1, "level": [3, "d0"]}, None, True),
+             ("outer-free-exclude", 2, 2, {"kind": "Exclude", "level": [3, "d1"]}, None, True)]
+    for tag, nA, nB, oc, ic, free in cases:
+        A = F(0, "A", ["a%d" % i for i in range(nA)])
+        B = F(1, "B", ["b%d" % i for i in range(nB)])
+        C = F(2, "C", ["c0", "c1"])
+        D = F(3, "D", ["d0", "d1"])
+        cons = []
+        ocs, ics = [], []
+        if oc is not None:
+            cons.append(dict(oc, id=len(cons)))
+            ocs.append(cons[-1]["id"])
+        if ic is not None:
+            cons.append(dict(ic, id=len(cons)))
+            ics.append(cons[-1]["id"])
+        # an Exclude of a crossed level: complete crossing not required (otherwise the design is unsatisfiable by definition)
+        orcc = not (oc is not None and oc["kind"] == "Exclude" and not free)
+        ircc = not (ic is not None and ic["kind"] == "Exclude")
+        blocks = [{"id": 0, "kind": "CrossBlock", "design": [0, 3] if free else [0], "crossing": [0], "constraints": [], "rcc": orcc},
+                  {"id": 1, "kind": "CrossBlock", "design": [1], "crossing": [1], "constraints": ics, "rcc": ircc}]
+        outer = 0
+        if tag.startswith("outer-atmost"):
+            # two repetitions of the outer crossing, the run-length constraint over all of them
+            cons.append({"id": len(cons), "kind": "MinimumTrials", "trials": 4})
+            blocks.append({"id": 2, "kind": "Repeat", "block": 0, "constraints": [cons[-1]["id"]] + ocs})
+            outer = 2
+        else:
+            blocks[0]["constraints"] = ocs
+        blocks.append({"id": len(blocks), "kind": "Nest", "outer": outer, "inner": 1, "constraints": []})
+        out.append(("nestable-" + tag, {"factors": [A, B, C, D], "constraints": cons, "blocks": blocks, "main": blocks[-1]["id"],
+                                        "shape": "nestable3"}))
+    return out
+
+
+GUARDS = ["nestable_b", "nestable_d_b", "nestable_c_b", "nestable_f_b"]      # in the order extract/drv_front.ml (nestsem2) prints them
 
 
 def renumber_sem(sem, pos):
@@ -577,7 +623,7 @@ def run(ctx, res):
     n = 18 if ctx.quick else 120
     nassoc = 4 if ctx.quick else 30
     rng = ctx.rng
-    progs = hand_programs() + nestable_family() + derived_family() + [("gen", gen_nest(rng)) for _ in range(n)]
+    progs = hand_programs() + nestable_family() + derived_family() + constraint_family() + [("gen", gen_nest(rng)) for _ in range(n)]
     res.rule = ("%d generated Nest programs (outer / inner CrossBlock or single-crossing MultiCrossBlock over 2-3-level factors, block "
                 "constraints AtMostKInARow / ExactlyK / Pin / Sequential / AtLeastKInARow, sometimes a Nest-level constraint, Nest in "
                 "Nest on either side) + %d associativity pairs; exhausted IterateSATGen (cap %d) and RandomGen; non-trivial = a "
